@@ -28,6 +28,8 @@ def cheb2poly(ccoefs, kind="T"):
 
 
 def poly2cheb(pcoefs, kind="T"):
+    # work on a copy: the loop below subtracts from pcoefs in place
+    pcoefs = np.array(pcoefs)
     ccoefs = np.zeros(len(pcoefs), dtype=pcoefs.dtype)
     cfunc = None
     if kind == "T":
